@@ -1,8 +1,8 @@
-from . import streams_codec, cli
+from . import streams_codec, streams_sol, cli
 
 ID = 'C09'
-PROPS_MODULE = 'Refine.Props.C09'
-STREAMS = [streams_codec.SOLB_WRITE, streams_codec.SOLB_READ, cli.FIELDRT, cli.FIELDRT_MPI]
+PROPS_MODULE = ['Refine.Props.C09', 'Refine.Props.C09Sol']
+STREAMS = [streams_codec.SOLB_WRITE, streams_codec.SOLB_READ] + streams_sol.STREAMS + [cli.FIELDRT, cli.FIELDRT_MPI]
 EXPLANATION = (
     'Proved in Lean (Refine/Props/C09.lean): decodeSolb n (encodeSolb v s) = ok (ldim, rows) for every ldim '
     '(versions 2,3,4; 2-D and 3-D; also with the C20 count check), decodeMetricSolb (encodeMetricSolb v twod ms) = '
@@ -16,14 +16,38 @@ EXPLANATION = (
     'side): `ref adapt -s 0 --export-metric-as` at np = 0,2,3,5 (chunk limits 64..1000, every rank active) on 2-D and '
     '3-D meshes with a metric file from the independent writer whose six components are all distinct and position '
     'dependent: entry j of the output field must be bit-identical to the input tensor of the vertex that became '
-    'output vertex j (multi-rank read ref_part_metric -> ghost/bcast -> ref_gather_metric).')
+    'output vertex j (multi-rank read ref_part_metric -> ghost/bcast -> ref_gather_metric).  '
+    'TEXT FORMATS AND MULTI-RANK CHUNK LOOPS (Refine/Props/C09Sol.lean, Model/Sol.lean, streams sol_*): the slot order of '
+    'every metric branch (ascii .sol 3-D / 2-D, plain six columns, .solb 3-D / 2-D, bamg, the three writers) is '
+    'regenerated from the C into Gen/SolOrder.lean and proved to be libMeshb\'s xx xy yy xz yz zz resp. xx xy yy resp. the '
+    'natural order, reader = writer for every pair refine has, row-level read(independent write t) = t for all values; '
+    'chunked_read_eq_whole: the while(nnode_read < nnode) loop (rank 0 reads a section, ref_mpi_bcast, every rank stores) '
+    'equals ONE pass over the rows for every chunk >= 1 and every world of ranks; field_index_is_vertex_index: the local '
+    'node of global g ends with entry g and nothing else.  Tie (h_sol.c <-> refdrv sol, np = 1 serial with ASan and np = 2, 3 '
+    'under mpiexec): the real ref_part_metric / ref_part_scalar / ref_part_bamg_metric on token-level files from independent '
+    'ASCII writers and pyio .solb bytes, with the reader chunk floor 100000 replaced through a MAX shim so that node counts '
+    'that are not multiples of the chunk take several passes; the real ref_gather_metric / ref_gather_scalar_by_extension '
+    '(.metric, .met, .solb, .sol, .txt, .bin, .rst) with reduce_byte_limit chunks of 1..3 rows; oracles: tensor recovered = '
+    'tensor stored by component NAME, entry g <-> vertex g on every rank.')
 ASSUMPTIONS = [
-    'the Lean model covers one rank (ref_mpi_create stub): chunk loops run once; the multi-rank sum/broadcast path '
-    'is covered by the end-to-end cli_metric_roundtrip_mpi stream only (oracle, no model side)',
+    'Model/Solb.lean (streams solb_*) covers one rank; the multi-rank sum/broadcast paths of the same functions are '
+    'modelled in Model/Sol.lean as World functions (Comm.bcast / Comm.sum) and tied at np = 2, 3 by the sol_*_mpi streams',
+    'text files are token lists: a number is the 64-bit pattern strtod returns (harness prints %.17g); values written '
+    'by the text writers are chosen exactly representable with < 16 significant digits so %.15e is exact: decimal '
+    'printing/parsing itself is not modelled; %d applied to a token with a fraction, line[1024] overflow, .csv, .plt, '
+    '.snap, .restart_sol and the .rst READER are not modelled',
+    'the reader chunk floor (100000 in the C, Gen/SolOrder.readChunkFloor) is an op parameter of the tie (MAX macro shim in '
+    'the white-box include of ref_part.c, no source change); the model takes it as a parameter and '
+    'reader_chunk_pos is proved for the production value',
+    'a read error on rank 0 of a multi-rank run leaves the other ranks in ref_mpi_bcast (the C deadlocks): malformed '
+    'files are generated for np = 1 only, the model returns rank 0\'s status',
+    'chunked_read_eq_whole is proved for any sequential row reader (RowStream); that rdMany over the token/byte stream '
+    'of an independent writer is such a reader is shown on concrete files (examples, decide) and by the tie, not in general',
+    'field_index_is_vertex_index assumes ref_node_local is injective on the rank (the node-id invariant of C14/C06)',
     'ref_node_metric_set also stores log(m); its status on non-SPD input belongs to the matrix kernel (C16): the '
     'metric streams use SPD tensors and the model takes ref_node_metric_set to succeed',
     'entry g of a field file belongs to the vertex with global id g: the harness builds grids with a permutation '
     'of dense global ids and ref_node_synchronize_globals is then the identity; renumbering of sparse ids is C06/C07',
     'IEEE values are carried as 64-bit patterns; the serial writer copies them (ref_mpi_sum on one rank is a copy)',
 ]
-TRUSTED = ['tools/translate_more_codec.py (metric slot order)', 'checks/meshio_ref.py as the independent layout']
+TRUSTED = ['tools/translate_more_codec.py (metric slot order)', 'tools/translate_more_sol.py (slot order of every branch, reader chunk floor)', 'checks/meshio_ref.py as the independent layout']
